@@ -111,6 +111,19 @@ def hijri(ctx):
                 V.add("hijri>%s" % s, {"s": s, "l": l, "dir": "from"}, expected=a, actual=b)
         sub.evaluations += 2 * len(ls)
         sub.nontrivial_count += 2 * len(ls)
+    # weekday specifiers are calendar-independent: a Hijri-held value prints the day's weekday
+    try:
+        wd, _ = run_lines(ctx.build, "dconv", ["-i", "hijri", "-f", "%a|%A|%u"], exp)
+    except BatchError as e:
+        V.add("batch:hijri:wday", {"kind": "batch"}, detail=str(e), actual=e.result.brief())
+        wd = []
+    for l, x, o in zip(ls, exp, wd):
+        w = R.wday(l - 6652)
+        want = "%s|%s|%d" % (R.WD_ABBR[w - 1], R.WD_LONG[w - 1], w)
+        if o != want:
+            V.add("hijri:wday", {"l": l, "dir": "wday", "s": "ldn"}, expected=want, actual=o)
+    sub.evaluations += len(wd)
+    sub.nontrivial_count += len(wd)
     sub.sample({"ldn": ls[0], "hijri": exp[0]})
     sub.sample({"ldn": ls[-1], "hijri": exp[-1]})
     return sub
@@ -432,6 +445,11 @@ def replay(ctx, subname, case):
         s, l = case["s"], case["l"]
         a = SRC[s][1](l - 6652)
         x = H.text(l)
+        if case["dir"] == "wday":
+            o, _ = run_lines(ctx.build, "dconv", ["-i", "hijri", "-f", "%a|%A|%u"], [x])
+            w = R.wday(l - 6652)
+            want = "%s|%s|%d" % (R.WD_ABBR[w - 1], R.WD_LONG[w - 1], w)
+            return None if o[0] == want else {"input": x, "expected": want, "actual": o[0]}
         if case["dir"] == "to":
             o, _ = run_lines(ctx.build, "dconv", CAL_I[s] + ["-f", "hijri"], [a])
             return None if o[0] == x else {"input": a, "expected": x, "actual": o[0]}
